@@ -433,3 +433,27 @@ M("c11-max-size-64", "C11", "P7", NP, "MAX_MESSAGE_SIZE = 32 * 1024 * 1024", "MA
 M("c11-replace-buffer", "C11", "P1", RP, "        self.buffer += data\n", "        self.buffer = data if not self.buffer else self.buffer + data\n")
 M("c11-len-little-endian", "C11", "P3", RP, "            (self.len,) = struct.unpack(b\">I\", self.buffer[:4])", "            (self.len,) = struct.unpack(b\"<I\", self.buffer[:4])")
 M("c11-stage-order", "C11", ["P6", "P3", "P7"], RP, "        if self.len is None and len(self.buffer) >= 4:\n            (self.len,) = struct.unpack(b\">I\", self.buffer[:4])", "        if self.len is None and self.magic_read and len(self.buffer) >= 4 and len(self.buffer) < 4096:\n            (self.len,) = struct.unpack(b\">I\", self.buffer[:4])")
+
+# ----------------------------------------------------------------------------------------------- C19
+M("c19-drop-del-disconnected", "C19", "R19.2", MGR, "        if key in self.disconnected_peers:\n            del self.disconnected_peers[key]\n", "")
+M("c19-hello-unconditional-store", "C19", "R19.2", RP, "            elif key not in nm.connected_peers:\n                nm.disconnected_peers[key] = DisconnectedRemotePeer(self.host, message.my_port, OUTGOING,",
+  "            else:\n                nm.disconnected_peers[key] = DisconnectedRemotePeer(self.host, message.my_port, OUTGOING,")
+M("c19-foreign-writer", "C19", "R19.1", LP, "        remote_peer = disconnected_peer.as_connected(self, sock)\n", "        remote_peer = disconnected_peer.as_connected(self, sock)\n        self.network_manager.connected_peers[(remote_peer.host, remote_peer.port, remote_peer.direction)] = remote_peer\n")
+M("c19-backoff-plus-one", "C19", "R19.3", RP, "            TIME_TO_SECOND_CONNECTION_ATTEMPT * pow(2, self.ban_score),", "            TIME_TO_SECOND_CONNECTION_ATTEMPT * pow(2, self.ban_score + 1),")
+M("c19-giveup-ge", "C19", "R19.3", RP, "        if self.ban_score > MAX_CONNECTION_ATTEMPTS:\n            return False", "        if self.ban_score >= MAX_CONNECTION_ATTEMPTS:\n            return False")
+M("c19-max-for-min", "C19", "R19.3", RP, "        time_between = min(\n            TIME_TO_SECOND", "        time_between = max(\n            TIME_TO_SECOND")
+M("c19-no-stamp", "C19", "R19.3", MGR, "                disconnected_peer.last_connection_attempt = current_time\n", "")
+M("c19-drop-my-addresses", "C19", ["R19.3", "R19.4"], MGR, "                (disconnected_peer.host, disconnected_peer.port) not in self.my_addresses and\n", "")
+M("c19-keep-101", "C19", "R19.5", DI, "PEERS_JSON_MAX_LEN = 100", "PEERS_JSON_MAX_LEN = 101")
+M("c19-append-not-insert", "C19", "R19.5", DI, "        keep.insert(0, item)\n", "        keep.append(item)\n")
+M("c19-write-final-directly", "C19", "R19.5", DI, "        with open(PEERS_JSON_FILE + \".new\", \"w\") as f:\n            json.dump(keep[:PEERS_JSON_MAX_LEN], f, indent=4)\n\n        os.replace(PEERS_JSON_FILE + \".new\", PEERS_JSON_FILE)",
+  "        with open(PEERS_JSON_FILE, \"w\") as f:\n            json.dump(keep[:PEERS_JSON_MAX_LEN], f, indent=4)")
+M("c19-peers-handler-overwrites", "C19", "R19.2", RP, "            elif key not in nm.connected_peers:\n                nm.disconnected_peers[key] = DisconnectedRemotePeer(host, announced_peer.port, OUTGOING, None,",
+  "            else:\n                nm.disconnected_peers[key] = DisconnectedRemotePeer(host, announced_peer.port, OUTGOING, None,")
+M("c19-disconnect-keeps-connected", "C19", "R19.2", MGR, "        del self.connected_peers[key]\n\n        if remote_peer.direction == OUTGOING:", "        if remote_peer.direction == OUTGOING:")
+M("c19-ban-reset-on-disconnect", "C19", "R19.3", MGR, "            self.disconnected_peers[key] = remote_peer.as_disconnected()", "            remote_peer.ban_score = 0\n            self.disconnected_peers[key] = remote_peer.as_disconnected()")
+M("c19-as-disconnected-drops-score", "C19", "R19.3", RP, "        return DisconnectedRemotePeer(self.host, self.port, self.direction,\n                                      self.last_connection_attempt, self.ban_score)",
+  "        return DisconnectedRemotePeer(self.host, self.port, self.direction,\n                                      self.last_connection_attempt, 0)")
+M("c19-self-connect-not-dropped", "C19", "R19.4", RP, "            self.local_peer.network_manager.my_addresses.add((self.host, self.port))\n            self.local_peer.disconnect(self, \"connection to self\")", "            self.local_peer.network_manager.my_addresses.add((self.host, self.port))")
+M("c19-backoff-cap", "C19", "R19.3", NP, "MAX_TIME_BETWEEN_CONNECTION_ATTEMPTS = 60 * 30", "MAX_TIME_BETWEEN_CONNECTION_ATTEMPTS = 60 * 60 * 30")
+M("c19-inc-always", "C19", "R19.3", MGR, "            if not remote_peer.hello_received:\n                remote_peer.ban_score += 1", "            if True:\n                remote_peer.ban_score += 1")
